@@ -150,6 +150,43 @@ type watcher struct {
 	stopped bool
 }
 
+// jitter measures how late this process's timers fire: an outcome-independent
+// sign that the machine is too loaded for the waits below to mean anything.
+type jitter struct {
+	mu   sync.Mutex
+	max  time.Duration
+	stop chan struct{}
+}
+
+func startJitter() *jitter {
+	j := &jitter{stop: make(chan struct{})}
+	go func() {
+		for {
+			t0 := time.Now()
+			select {
+			case <-j.stop:
+				return
+			case <-time.After(10 * time.Millisecond):
+			}
+			over := time.Since(t0) - 10*time.Millisecond
+			j.mu.Lock()
+			if over > j.max {
+				j.max = over
+			}
+			j.mu.Unlock()
+		}
+	}()
+	return j
+}
+func (j *jitter) end() time.Duration {
+	close(j.stop)
+	j.mu.Lock()
+	defer j.mu.Unlock()
+	return j.max
+}
+
+const jitterLimit = 400 * time.Millisecond
+
 // ---- one history ----
 
 type world struct {
@@ -343,8 +380,8 @@ func runHistory(t *testing.T, name string, acts []action) (res result) {
 					if !expect {
 						return
 					}
-					// the active watcher is expected to run its handler for this node: wait for it (or 5 s)
-					deadline := time.Now().Add(5 * time.Second)
+					// the active watcher is expected to run its handler for this node: wait for it (or 12 s)
+					deadline := time.Now().Add(12 * time.Second)
 					for time.Now().Before(deadline) && x.active.cw.setNodeCount(nodeName(a.Node)) <= before {
 						time.Sleep(10 * time.Millisecond)
 					}
@@ -750,10 +787,33 @@ func TestC28(t *testing.T) {
 	for i := 0; i < n; i++ {
 		hs = append(hs, g.history(fmt.Sprintf("rand-%d", i), 7+r.Rng.Intn(6)))
 	}
+	dropped := 0
+	budget := time.Now().Add(time.Duration(r.N(150, 2000)) * time.Second)
 	for _, h := range hs {
-		res := runHistory(t, h.name, h.acts)
-		if res.Err != "" {
-			t.Fatalf("history %s: %s", h.name, res.Err)
+		var res result
+		valid := false
+		for try := 0; try < 3; try++ {
+			if try > 0 && !time.Now().Before(budget) {
+				break
+			}
+			j := startJitter()
+			res = runHistory(t, h.name, h.acts)
+			worst := j.end()
+			if res.Err != "" {
+				t.Fatalf("history %s: %s", h.name, res.Err)
+			}
+			if worst <= jitterLimit {
+				valid = true
+				break
+			}
+			r.Count("retry_overloaded")
+		}
+		if !valid {
+			// timers of this process fired more than 400 ms late during every attempt:
+			// the waits of the harness are not trustworthy, the observation is not emitted
+			dropped++
+			r.Count("dropped_overloaded")
+			continue
 		}
 		window := lapseInStartWindow(h.acts)
 		for _, a := range h.acts {
@@ -779,6 +839,12 @@ func TestC28(t *testing.T) {
 		r.Count(fmt.Sprintf("workloads=%d", nw))
 		r.Add(coqCase(res), res, map[string]any{"lapse_in_start_window": window}, downs > 0)
 	}
-	r.Finish("corpus (6 histories incl. the start-window witness, lock expiry, hand-over to a held watcher) then random histories of 7-12 steps over 3 nodes, <=6 workloads, <=2 watchers " +
+	r.Count(fmt.Sprintf("dropped=%d", dropped))
+	r.Count(fmt.Sprintf("validated=%d", len(hs)-dropped))
+	thin := ""
+	if dropped*4 > len(hs) {
+		thin = fmt.Sprintf("THIN COVERAGE: %d of %d histories dropped because the machine was too loaded (timers > 400 ms late); ", dropped, len(hs))
+	}
+	r.Finish(thin + "corpus (6 histories incl. the start-window witness, lock expiry, hand-over to a held watcher) then random histories of 7-12 steps over 3 nodes, <=6 workloads, <=2 watchers " +
 		"(create | report | heartbeat | lapse by delete or lease revoke | start | start held | release | expire | stop); non-trivial = some workload ends reported down")
 }
